@@ -37,6 +37,19 @@ def days_small(c, y):
     return sorted(x for x in s if 1 <= x <= n)
 
 
+def days_yearedge(c, y):
+    """First 5 and last 5 days of the year: every day on which the ISO week-year can differ from the calendar year
+    (W01 starts between 4 Jan - 6 days and 4 Jan) plus one neighbour on each side, in every calendar."""
+    n = c.year_len(y)
+    return [1, 2, 3, 4, 5, n - 4, n - 3, n - 2, n - 1, n]
+
+
+Y_WEEKCYCLE_Q = list(range(2019, 2033))      # every weekday of 1 January, common and leap years among them
+Y_WEEKCYCLE = list(range(2000, 2028))        # all 14 Gregorian year types (28-year cycle)
+T_EDGE = [["hms", 0, 30, 0], ["hms", 23, 30, 0]]
+Z_EDGE = [[0, 0], [1, 0], [-1, 0]]
+
+
 def configs(k):
     """Yield (kind, rep, times, zones, ndev, years, daypolicy).
 
@@ -71,7 +84,8 @@ def point_descs(kind, rep, times, zones, years, daypolicy):
     c = M.cal(kind)
     for y in years:
         doys = A.days_boundary(c, y) if daypolicy == "boundary" else (
-            days_small(c, y) if daypolicy == "small" else range(1, c.year_len(y) + 1))
+            days_small(c, y) if daypolicy == "small" else days_yearedge(c, y) if daypolicy == "yearedge" else
+            range(1, c.year_len(y) + 1))
         for doy in doys:
             dn = c.dn_from_ord(y, doy)
             f = list(c.from_dn(rep, dn))
